@@ -173,7 +173,8 @@ def extract_vars(statement):
 
     variables = [v for v in variables if v[2] != ""]
 
-    return sorted(list(set(variables)), key=lambda var: var[2])
+    # Sort by variable name, then by type and statement so the order is fully determined.
+    return sorted(list(set(variables)), key=lambda var: (var[2], var[0], var[1]))
 
 
 def func_has_ctx_arg(func):
